@@ -1,6 +1,6 @@
 (* C08 model: s-expression interface (run_C08).  Executable definitions only. *)
 From Coq Require Import List ZArith String Ascii Bool Arith.
-From Verif Require Import Lib.Sexp Gen.C08_tables Model.C08_json Model.C08_full Model.C08_text Model.C08_links Model.C08_hook.
+From Verif Require Import Lib.Sexp Gen.C08_tables Model.C08_json Model.C08_full Model.C08_text Model.C08_links Model.C08_hook Model.C08_entry.
 Import ListNotations.
 Open Scope string_scope.
 Open Scope list_scope.
@@ -271,6 +271,10 @@ Definition run_C08 (s : sexp) : sexp :=
       else if String.eqb cmd "fullD" then
         match dx_fctx a, dx_tree b with
         | Some c, Some t => run_fullD c t
+        | _, _ => bad_input end
+      else if String.eqb cmd "from-json" then
+        match a, b with
+        | SStr k, SStr x => sx_tres (from_json_text (if String.eqb k "object" then WObject else WKind k) x)
         | _, _ => bad_input end
       else if String.eqb cmd "path" then
         match a, b with SStr base, SStr x => run_path base x | _, _ => bad_input end
